@@ -163,10 +163,9 @@ class SymH:
                 claim = (abs(d) <= tol)
                 claim = claim.t if isinstance(claim, B) else bool(claim)
             self._add(name, k, "eq", claim, a, b)
-            if not self.sentinel_done and tol is None and not isinstance(claim, bool) and not core.q_is_const(b.v):
+            if len(self.sentinels) < 6 and tol is None and not isinstance(claim, bool) and not core.q_is_const(b.v):
                 l, r = core.qeq_terms(a.v, core.qmul(Q(Fraction(1001, 1000)), b.v))
-                self.sentinels.append((name, k, core.term(l) == core.term(r)))
-                self.sentinel_done = True
+                self.sentinels.append((name, k, core.term(l) == core.term(r), core.term(b.v.n) != 0))
 
     def eq_tangent(self, name, jets, rhs):
         self.eq(name, core.tangents(jets), rhs)
